@@ -231,6 +231,10 @@ func c14ECH() *explore.Scenario {
 					scfg.Certificates = []tls.Certificate{f.ECDSA}
 				}
 			}
+			if mode != 0 && x.Choose("hrr-before-rejecting", 2) == 1 {
+				scfg.CurvePreferences = []tls.CurveID{tls.CurveP384} // the rejecting server sends a HelloRetryRequest first
+				what += " hello-retry-request-first"
+			}
 			prep := g.prepare()
 			// a caller that removed the SNI extension from the parrot: the public-name rule must not depend on it
 			if rm := x.Choose("removesni", 3); rm != 0 { // 1 after an explicit BuildHandshakeState, 2 before any build
@@ -313,7 +317,7 @@ func c14Scenarios(thorough bool) []*explore.Scenario {
 func init() {
 	register(&Prop{ID: "C14", Level: "exploration", Variant: "A", Scenarios: c14Scenarios,
 		Run: func(c *explore.Check, thorough bool) {
-			c.Rule = "full product of {4 (6) clients} x version {1.3,1.2} x certificate {valid, wrong name, untrusted root, expired, not yet valid} x ServerName {matching, other, IP literal no leaf covers} x InsecureServerNameToVerify {'', '*', matching, other} x InsecureSkipTimeVerify x InsecureSkipVerify x {fresh, resumed from a session cached by an unverified / a leniently verified first connection}, and the same product at TLS 1.3 with ECH offered and accepted (4 ECH-capable clients): success must equal a reference predicate and failures must be CertificateVerificationError; ECH: 4 clients x {accepted, rejected with / without retry configs} x public-name certificate {good, untrusted, secret-name only} x name check on/off. distinct = configuration"
+			c.Rule = "full product of {4 (6) clients} x version {1.3,1.2} x certificate {valid, wrong name, untrusted root, expired, not yet valid} x ServerName {matching, other, IP literal no leaf covers} x InsecureServerNameToVerify {'', '*', matching, other} x InsecureSkipTimeVerify x InsecureSkipVerify x {fresh, resumed from a session cached by an unverified / a leniently verified first connection}, and the same product at TLS 1.3 with ECH offered and accepted (4 ECH-capable clients): success must equal a reference predicate and failures must be CertificateVerificationError; ECH: 4 clients x {accepted, rejected with / without retry configs, rejected after a HelloRetryRequest} x public-name certificate {good, untrusted, secret-name only} x name check on/off. distinct = configuration"
 			c.Assumptions = []string{"reference predicate written from the Config field documentation", "fixture PKI with a fixed clock"}
 			runAll(c, c14Scenarios(thorough), 0)
 			c.Gate(c.Total.Counters["resumed_connections"] > 20, "non-vacuity: %d resumed connections", c.Total.Counters["resumed_connections"])
